@@ -69,7 +69,10 @@ def c18_row(idx, d, e):
         elif api == "from_chunks_mut":
             body = ("%s let cnt: i64 = { let g: &mut [GenericArray<%s, %s>] = GenericArray::from_chunks_mut(&mut chunks); if g.len() > 0 && %d > 0 { g[0].as_mut_slice()[0] = %s; } g.len() as i64 }; "
                     "let mut acc = 0i64; let mut i = 0usize; while i < chunks.len() { acc += %s; i += 1; } [0, cnt * %d, acc, 0, 0, cnt]") % (chunks, T, U(n), n, poke, sum_slice(e, "&chunks[i]"), n)
-        elif api in ("into_chunks", "into_chunks_mut"):
+        elif api == "into_chunks_mut":
+            body = ("%s let cnt: i64 = { let g0: &mut [GenericArray<%s, %s>] = GenericArray::from_chunks_mut(&mut chunks); let back: &mut [[%s; %d]] = GenericArray::into_chunks_mut(g0); if back.len() > 0 && %d > 0 { back[0][0] = %s; } back.len() as i64 }; "
+                    "let mut acc = 0i64; let mut i = 0usize; while i < chunks.len() { acc += %s; i += 1; } [0, cnt * %d, acc, 0, 0, cnt]") % (chunks, T, U(n), T, n, n, poke, sum_slice(e, "&chunks[i]"), n)
+        elif api == "into_chunks":
             mk_g = "let g0: &[GenericArray<%s, %s>] = GenericArray::from_chunks(&chunks);" % (T, U(n))
             body = "%s %s let back: &[[%s; %d]] = GenericArray::into_chunks(g0); let mut acc = 0i64; let mut i = 0usize; while i < back.len() { acc += %s; i += 1; } [0, (back.len() * %d) as i64, acc, 0, 0, back.len() as i64]" % (
                 chunks.replace("let mut chunks", "let chunks"), mk_g, T, n, sum_slice(e, "&back[i]"), n)
@@ -172,4 +175,32 @@ def c20_program(ks, repeat_lens):
         main.append("    rec(\"const_repeat\", %d, &[], CR_%d.as_slice(), CR_%d.len(), &[], CRC_%d.as_slice(), CRC_%d.len());" % (n, n, n, n, n))
         if n <= 64:
             main.append("    { let b: Box<GenericArray<String, U%d>> = box_arr![es(7); U%d]; let bev = take(); rec(\"box_repeat_noncopy\", %d, &bev, &nums(b.as_slice()), b.len(), &bev, &nums(b.as_slice()), b.len()); }" % (n, n, n))
-    return "\n".join(out) + "\n" + "\n".join(consts) + "\nfn main() {\n" + "\n".join(main) + "\n}\n"
+    # constant lengths given by a const generic parameter of the enclosing fn / const fn (arr! only: box_arr!'s
+    # constant-length form names the length in an item of its own and cannot see outer generics)
+    w("fn gen_rep<const N: usize>() -> GenericArray<i64, generic_array::ConstArrayLength<N>> where generic_array::typenum::Const<N>: generic_array::IntoArrayLength { arr![e(7); { N }] }")
+    w("const fn cgen_rep<const N: usize>() -> GenericArray<i64, generic_array::ConstArrayLength<N>> where generic_array::typenum::Const<N>: generic_array::IntoArrayLength { arr![1007; { N }] }")
+    for n in [x for x in repeat_lens if x <= 1024]:
+        main.append("    { let a = gen_rep::<%d>(); let ev = take(); rec(\"repeat_constgeneric\", %d, &ev, a.as_slice(), a.len(), &ev, a.as_slice(), a.len()); }" % (n, n))
+        consts.append("const CG_%d: GenericArray<i64, generic_array::ConstArrayLength<%d>> = cgen_rep::<%d>();" % (n, n, n))
+        main.append("    rec(\"const_repeat\", %d, &[], CG_%d.as_slice(), CG_%d.len(), &[], CG_%d.as_slice(), CG_%d.len());" % (n, n, n, n, n))
+    # hygiene: the macros are invoked where the usual names mean something else
+    hyg = """
+mod hyg {
+    #![allow(unused_macros, non_camel_case_types, dead_code, unused_imports)]
+    macro_rules! vec { ($($t:tt)*) => { compile_error!("the caller's vec! was used by the crate's macro") } }
+    macro_rules! arr_inner { ($($t:tt)*) => { compile_error!("caller macro used") } }
+    pub struct Box; pub struct Vec; pub struct GenericArray; pub struct Option; pub struct Some; pub struct ArrayLength;
+    pub mod core {} pub mod alloc {} pub mod std {} pub mod generic_array {} pub mod typenum {}
+    use super::{e, rec, take};
+    pub fn run() {
+        { let a = ::generic_array::arr![e(0), e(1), e(2)]; let ev = take(); let b = ::generic_array::box_arr![e(0), e(1), e(2)]; let bev = take();
+          rec("hyg_list", 3, &ev, a.as_slice(), a.len(), &bev, b.as_slice(), b.len()); }
+        { let a = ::generic_array::arr![e(7); ::generic_array::typenum::U4]; let ev = take(); let b = ::generic_array::box_arr![e(7); ::generic_array::typenum::U4]; let bev = take();
+          rec("hyg_repeat_ty", 4, &ev, a.as_slice(), a.len(), &bev, b.as_slice(), b.len()); }
+        { let a = ::generic_array::arr![e(7); 4]; let ev = take(); let b = ::generic_array::box_arr![e(7); 4]; let bev = take();
+          rec("hyg_repeat_const", 4, &ev, a.as_slice(), a.len(), &bev, b.as_slice(), b.len()); }
+    }
+}
+"""
+    main.append("    hyg::run();")
+    return "\n".join(out) + "\n" + "\n".join(consts) + hyg + "\nfn main() {\n" + "\n".join(main) + "\n}\n"
